@@ -67,6 +67,73 @@ Definition invalid (v : receiver) (code : N) (rest : str) : receiver * str * rx 
 
 Definition nonempty (s : str) : bool := match s with [] => false | _ => true end.
 
+(* the Content-Length / no-body branch of receive (after the head is valid) *)
+Definition receive_cl (cfg : rcfg) (request_parsed : bool) (v1 : receiver) (b1 : str) : receiver * str * rx :=
+  let q1 := rv_req v1 in
+  let rx_size := nlen b1 in
+  let cl := hd_content_length (rq_headers q1) in
+  (* TRACE requests may not be allowed *)
+  let trace_bad := rq_is_trace q1 && negb (match cl with Some 0 => true | _ => false end) in
+  let v2 := if rq_is_trace q1 && negb trace_bad then rv_set_code v1 code_METHOD_NOT_ALLOWED else v1 in
+  if trace_bad then invalid v1 code_BAD_REQUEST b1
+  else
+    match cl with
+    | None => invalid v2 code_BAD_REQUEST b1
+    | Some n =>
+        if (0 <? n) && (c_max_content cfg <? n) then invalid v2 code_PAYLOAD_TOO_LARGE b1
+        else if (n =? 0) && (0 <? rx_size)
+                && negb (nonempty (hd_find (rq_headers q1) hf_LC_CONTENT_LENGTH))
+        then invalid v2 code_LENGTH_REQUIRED b1
+        else
+          let required := (Z.of_N n - Z.of_N (nlen (rv_body v2)))%Z in
+          if (required <? 0)%Z && (required <? Z.of_N rx_size)%Z then (v2, b1, RX_UB)
+          else
+            let '(body, b2) :=
+              if (required <? Z.of_N rx_size)%Z
+              then (rv_body v2 ++ firstn (Z.to_nat required) b1, skipn (Z.to_nat required) b1)
+              else (rv_body v2 ++ b1, []) in
+            let v3 := mk_rv (rv_req v2) (rv_chunk v2) body (rv_code v2) (rv_continue_sent v2) (rv_is_head v2) in
+            if nlen body =? n then
+              let ih := rq_is_head q1 in
+              let q2 := if ih && c_translate_head cfg
+                        then mk_rq (rl_set_method (rq_line q1) method_GET) (rq_headers q1) (rq_valid q1)
+                        else q1 in
+              (mk_rv q2 (rv_chunk v3) body (rv_code v3) (rv_continue_sent v3) ih, b2, RX_VALID)
+            else if request_parsed && rq_expect_continue q1 && negb (rv_continue_sent v3)
+            then (rv_set_code v3 code_CONTINUE, b2, RX_EXPECT_CONTINUE)
+            else (v3, b2, RX_INCOMPLETE)
+    end.
+
+(* the chunked branch *)
+Definition receive_chunked (cfg : rcfg) (request_parsed : bool) (v1 : receiver) (b1 : str) : receiver * str * rx :=
+  let L := c_lim cfg in
+  let q1 := rv_req v1 in
+  let k0 := if rc_valid (rv_chunk v1) then rc_clear (rv_chunk v1) else rv_chunk v1 in
+  let v2 := mk_rv (rv_req v1) k0 (rv_body v1) (rv_code v1) (rv_continue_sent v1) (rv_is_head v1) in
+  if request_parsed && rq_expect_continue q1 && negb (rv_continue_sent v2)
+  then (rv_set_code v2 code_CONTINUE, b1, RX_EXPECT_CONTINUE)
+  else if request_parsed && negb (c_concat cfg) then (v2, b1, RX_VALID)
+  else
+    let '(k1, b2, r2) := rc_parse L k0 b1 in
+    let v3 := mk_rv (rv_req v2) k1 (rv_body v2) (rv_code v2) (rv_continue_sent v2) (rv_is_head v2) in
+    let failed := match r2 with Done => false | _ => nonempty b2 || rc_failed k1 end in
+    if failed then invalid v3 code_BAD_REQUEST b2
+    else if rc_valid k1 then
+      if c_concat cfg then
+        if rc_is_last k1 then (v3, b2, RX_VALID)
+        else if c_max_content cfg <? nlen (rv_body v3) + nlen (rc_data k1)
+        then invalid v3 code_PAYLOAD_TOO_LARGE b2
+        else (mk_rv (rv_req v3) k1 (rv_body v3 ++ rc_data k1) (rv_code v3) (rv_continue_sent v3) (rv_is_head v3),
+              b2, RX_INCOMPLETE)
+      else (v3, b2, RX_CHUNK)
+    else (v3, b2, RX_INCOMPLETE).
+
+(* everything after the head is valid *)
+Definition receive_body (cfg : rcfg) (request_parsed : bool) (v1 : receiver) (b1 : str) : receiver * str * rx :=
+  if rq_missing_host (rv_req v1) then (rv_set_code v1 code_BAD_REQUEST, b1, RX_INVALID)
+  else if negb (hd_is_chunked (rq_headers (rv_req v1))) then receive_cl cfg request_parsed v1 b1
+  else receive_chunked cfg request_parsed v1 b1.
+
 (* request_receiver::receive *)
 Definition receive (cfg : rcfg) (v0 : receiver) (buf : str) : receiver * str * rx :=
   let L := c_lim cfg in
@@ -85,64 +152,19 @@ Definition receive (cfg : rcfg) (v0 : receiver) (buf : str) : receiver * str * r
                     end in
         invalid v1 code b1
       else (v1, b1, RX_INCOMPLETE)
-  | Done =>
-      if rq_missing_host q1 then (rv_set_code v1 code_BAD_REQUEST, b1, RX_INVALID)
-      else if negb (hd_is_chunked (rq_headers q1)) then
-        let rx_size := nlen b1 in
-        let cl := hd_content_length (rq_headers q1) in
-        (* TRACE requests may not be allowed *)
-        let trace_bad := rq_is_trace q1 && negb (match cl with Some 0 => true | _ => false end) in
-        let v2 := if rq_is_trace q1 && negb trace_bad then rv_set_code v1 code_METHOD_NOT_ALLOWED else v1 in
-        if trace_bad then invalid v1 code_BAD_REQUEST b1
-        else
-          match cl with
-          | None => invalid v2 code_BAD_REQUEST b1
-          | Some n =>
-              if (0 <? n) && (c_max_content cfg <? n) then invalid v2 code_PAYLOAD_TOO_LARGE b1
-              else if (n =? 0) && (0 <? rx_size)
-                      && negb (nonempty (hd_find (rq_headers q1) hf_LC_CONTENT_LENGTH))
-              then invalid v2 code_LENGTH_REQUIRED b1
-              else
-                let required := (Z.of_N n - Z.of_N (nlen (rv_body v2)))%Z in
-                if (required <? 0)%Z && (required <? Z.of_N rx_size)%Z then (v2, b1, RX_UB)
-                else
-                  let '(body, b2) :=
-                    if (required <? Z.of_N rx_size)%Z
-                    then (rv_body v2 ++ firstn (Z.to_nat required) b1, skipn (Z.to_nat required) b1)
-                    else (rv_body v2 ++ b1, []) in
-                  let v3 := mk_rv (rv_req v2) (rv_chunk v2) body (rv_code v2) (rv_continue_sent v2) (rv_is_head v2) in
-                  if nlen body =? n then
-                    let ih := rq_is_head q1 in
-                    let q2 := if ih && c_translate_head cfg
-                              then mk_rq (rl_set_method (rq_line q1) method_GET) (rq_headers q1) (rq_valid q1)
-                              else q1 in
-                    (mk_rv q2 (rv_chunk v3) body (rv_code v3) (rv_continue_sent v3) ih, b2, RX_VALID)
-                  else if request_parsed && rq_expect_continue q1 && negb (rv_continue_sent v3)
-                  then (rv_set_code v3 code_CONTINUE, b2, RX_EXPECT_CONTINUE)
-                  else (v3, b2, RX_INCOMPLETE)
-          end
-      else
-        (* request_.is_chunked() *)
-        let k0 := if rc_valid (rv_chunk v1) then rc_clear (rv_chunk v1) else rv_chunk v1 in
-        let v2 := mk_rv (rv_req v1) k0 (rv_body v1) (rv_code v1) (rv_continue_sent v1) (rv_is_head v1) in
-        if request_parsed && rq_expect_continue q1 && negb (rv_continue_sent v2)
-        then (rv_set_code v2 code_CONTINUE, b1, RX_EXPECT_CONTINUE)
-        else if request_parsed && negb (c_concat cfg) then (v2, b1, RX_VALID)
-        else
-          let '(k1, b2, r2) := rc_parse L k0 b1 in
-          let v3 := mk_rv (rv_req v2) k1 (rv_body v2) (rv_code v2) (rv_continue_sent v2) (rv_is_head v2) in
-          let failed := match r2 with Done => false | _ => nonempty b2 || rc_failed k1 end in
-          if failed then invalid v3 code_BAD_REQUEST b2
-          else if rc_valid k1 then
-            if c_concat cfg then
-              if rc_is_last k1 then (v3, b2, RX_VALID)
-              else if c_max_content cfg <? nlen (rv_body v3) + nlen (rc_data k1)
-              then invalid v3 code_PAYLOAD_TOO_LARGE b2
-              else (mk_rv (rv_req v3) k1 (rv_body v3 ++ rc_data k1) (rv_code v3) (rv_continue_sent v3) (rv_is_head v3),
-                    b2, RX_INCOMPLETE)
-            else (v3, b2, RX_CHUNK)
-          else (v3, b2, RX_INCOMPLETE)
+  | Done => receive_body cfg request_parsed v1 b1
   end.
+
+(* ---- C06: what a connection retains ------------------------------------------------------ *)
+Definition fields_size (m : fields) : N :=
+  fold_right (fun kv acc => nlen (fst kv) + nlen (snd kv) + acc) 0 m.
+Definition hd_retained (h : headers) : N :=
+  fields_size (hd_fields h) + nlen (fl_name (hd_field h)) + nlen (fl_value (hd_field h)).
+Definition retained (v : receiver) : N :=
+  nlen (rl_method (rq_line (rv_req v))) + nlen (rl_uri (rq_line (rv_req v)))
+  + hd_retained (rq_headers (rv_req v)) + nlen (rv_body v)
+  + nlen (rc_data (rv_chunk v)) + nlen (ck_hex (rc_hdr (rv_chunk v))) + nlen (ck_ext (rc_hdr (rv_chunk v)))
+  + hd_retained (rc_trailers (rv_chunk v)).
 
 (* ---- what the application sees ----------------------------------------------------------- *)
 Inductive event :=
